@@ -16,8 +16,10 @@
                            DS_trail           blanks at the end of a data line (also after an '&')
                            DS_tab             a tab <-> the blanks up to the next multiple of 8 columns
                            DS_eol             LF <-> CR LF
+                           DS_indent          the indentation of a line, on either side of column 5
                            DS_blank           what a blank line consists of
-                         and LS_front: message block added / removed / changed, line end of the title line.
+                         and LS_front: message block added / removed / changed, line end of the title line;
+                             LS_tail: anything after the blank line that ends the third block.
      layout_equiv w      reflexive, symmetric, transitive closure over files whose lines have at most w columns
                          (tabs expanded, line end not counted).
    Side conditions of the steps exclude: vertical format ('#' in columns 1-5), lines whose first word is a lone
@@ -87,6 +89,17 @@ Proof. repeat split; reflexivity. Qed.
 Theorem C11_eol : forall x, no_eol x = true -> clean_line (x ++ crlf) = clean_line (x ++ lf).
 Proof. exact clean_line_crlf. Qed.
 Print Assumptions C11_eol.
+
+(* ... and for a whole file: writing every LF as CR LF gives the same cleaned lines *)
+Theorem C11_eol_file : forall s, no_cr s = true -> file_lines (to_crlf s) = file_lines s.
+Proof. exact file_lines_crlf. Qed.
+Print Assumptions C11_eol_file.
+
+Example C11_eol_file_nonvacuous :
+  no_cr ("t" ++ lf ++ "1 0 -1 &" ++ lf ++ "2" ++ lf) = true /\
+  to_crlf ("t" ++ lf ++ "1 0 -1 &" ++ lf ++ "2" ++ lf) = "t" ++ crlf ++ "1 0 -1 &" ++ crlf ++ "2" ++ crlf /\
+  file_lines ("t" ++ crlf ++ "1 0 -1 &" ++ crlf ++ "2" ++ crlf) = ["t" ++ lf; "1 0 -1 &" ++ lf; "2" ++ lf].
+Proof. repeat split; reflexivity. Qed.
 
 (* 4. comment lines: on printable lines is_comment is rule S5 plus the lines late_c describes (a c in column 6,
       or a lone c beyond it): is_comment alone is NOT rule S5 ... *)
